@@ -79,6 +79,29 @@ func pickTag(fn *ssa.Function, T types.Type, cval constant.Value) ssa.Value {
 		check(b.X, b.Y)
 		check(b.Y, b.X)
 	})
+	if found != nil {
+		return found
+	}
+	// table-driven dispatch: the tag indexes a package-level constant map that has cval among its keys
+	allInstrs(fn, func(in ssa.Instruction) {
+		lk, ok := in.(*ssa.Lookup)
+		if !ok || found != nil || !types.Identical(lk.Index.Type(), T) {
+			return
+		}
+		u, ok := lk.X.(*ssa.UnOp)
+		if !ok {
+			return
+		}
+		g, ok := u.X.(*ssa.Global)
+		if !ok || curProg == nil {
+			return
+		}
+		if tbl, ok := curProg.constTable(g); ok {
+			if _, has := tbl[cval.ExactString()]; has {
+				found = lk.Index
+			}
+		}
+	})
 	return found
 }
 
